@@ -1779,7 +1779,7 @@ func (p *Parser) parseExpression(prec OpPrec) IExpr {
 		}
 		p.next()
 		left = &UnaryExpr{PreIncrToken, p.parseExpression(OpUnary)}
-		precLeft = OpUnary
+		precLeft = OpUpdate
 	case DecrToken:
 		if OpUpdate < prec {
 			p.fail("expression")
@@ -1787,7 +1787,7 @@ func (p *Parser) parseExpression(prec OpPrec) IExpr {
 		}
 		p.next()
 		left = &UnaryExpr{PreDecrToken, p.parseExpression(OpUnary)}
-		precLeft = OpUnary
+		precLeft = OpUpdate
 	case AwaitToken:
 		// either accepted as IdentifierReference or as AwaitExpression
 		if p.await && prec <= OpUnary {
